@@ -33,6 +33,30 @@ def check_doc(d):
     return None, t
 
 
+def _tuplify_doc(d):
+    """JSON round trip turns the neutral tuples into lists; restore tuples recursively"""
+    def tv(v):
+        k = v[0]
+        if k == "list":
+            return ("list", [tv(x) for x in v[1]])
+        if k == "map":
+            return ("map", [(kk, tv(x)) for kk, x in v[1]])
+        return tuple(v)
+    def tn(n):
+        k = n[0]
+        if k == "a":
+            return ("a", n[1], tv(n[2]), list(n[3]), n[4])
+        if k == "b":
+            return ("b", n[1], n[2], [tn(c) for c in n[3]], list(n[4]))
+        if k == "s":
+            return ("s", n[1], n[2], n[3], [tn(c) for c in n[4]], list(n[5]))
+        return ("c", n[1])
+    out = dict(d)
+    out["meta"] = [(k, ("d", [(k2, tv(v2)) for k2, v2 in mv[1]]) if mv[0] == "d" else ("v", tv(mv[1]))) for k, mv in d["meta"]]
+    out["sections"] = [tn(n) for n in d["sections"]]
+    return out
+
+
 def run(ctx):
     hm = doccases.have_model(ctx)
     # core fragment of Rt/TokRound.v (theorem parse_core_doc): deep nesting, scalars of every kind
@@ -43,6 +67,15 @@ def run(ctx):
                          "holographic values, leading/trailing/orphan comments; depth<=4, <=7 siblings) rendered canonically "
                          "(emit) and, for documents that falsify no wf clause, in 3 (thorough 8) random lenient spellings; the "
                          "expected content is the generator's document. non-trivial = distinct document with >=2 nodes.")
+    # ---- regressions of repaired defects (corpus/C02): content must be preserved ----
+    from pathlib import Path as _Path
+    for cf in sorted((_Path(__file__).resolve().parents[2] / "corpus" / "C02").glob("*.json")):
+        cd = json.loads(cf.read_text())["doc"]
+        cd["sections"] = [tuple(n) if isinstance(n, list) else n for n in cd["sections"]]
+        what, t = check_doc(astcodec.neutral_from_json(cd) if hasattr(astcodec, "neutral_from_json") else _tuplify_doc(cd))
+        ctx.count()
+        if what is not None:
+            ctx.property_failure({"doc": cd, "text": t, "corpus": cf.name}, what + f" (corpus {cf.name})")
     # ---- known finding witnesses ----
     for fid, f in ctx.known.items():
         w = f["witness"]
